@@ -18,7 +18,7 @@ for d in sorted(glob.glob(os.path.join(ROOT, "seeded", "*"))):
 hdr = """### 9.5 Seeded changes and which checks catch them
 
 %d changes to txtpp were written by sub-agents that saw only the text of one property and a scratch worktree
-(twelve rounds; the second asked for less obvious sites, the third and fourth (`"round"` in meta.json) for three mutually
+(thirteen rounds; the second asked for less obvious sites, the third and fourth (`"round"` in meta.json) for three mutually
 different mechanisms per property with narrow failing inputs, schedule-dependent ones included; the fifth and sixth were
 confined to the ENTRY LAYER - src/main.rs, lib.rs, config.rs, progress.rs, error.rs, shell.rs: how an invocation becomes a
 run and how its result is reported). Each was confirmed in a scratch worktree (`tools/confirm_seeds.sh`,
@@ -93,7 +93,20 @@ output decoded in 8 KiB pieces (C17). Each got an explicit scenario (output size
 tails; twin sources as a corner project; U+FFFD in an output with its first byte changed; symbolic links at output paths
 and inside scanned directories; `verify -n` as the first case of every CLI shard over a source that ends in a text line;
 prefixes of 64-130 bytes in the add_line enumeration; the dependency-in-a-sub-directory project with a 40 KB command
-output) and all ten are caught now.
+output) and all ten are caught now. Round 13 (C01-C04, C06, C08-C12, C14, C16; "what a single run on a fresh small project
+does not show": histories of runs, two features interacting, more than one worker, how a failure is reported; 36 changes),
+again run first against the machinery as it stood: 29 of 36 caught at once (the history jobs, the schedule exploration,
+the trace job and the corner scenarios carried most of them); seven missed - verify treating an existing include target as
+a plain file, so that a broken dependency is never verified when only the includer is named (C04: the fault job always
+requested the whole directory, and all its shards drew the same random stream - now the root alone is requested in a quarter
+of the cases and the stream depends on the shard), a failing verify that deletes the existing output and a verify that
+rewrites the stale output of a dependency outside its inputs (C06, C10: `verify_read_only_scenarios`), a tag still waiting
+at end of file accepted, and the unused-tag check skipped in verify (C14: corner scenarios with an expected error in
+build / needed / verify over an output that already matches), `-N` comparing line by line after the source's line endings
+or the trailing option changed (C16: the identity job now also runs only-if-needed over an output left with the other
+line ending or a flipped final line ending). All caught now. (While adding the root-only request to the fault job, the
+clean mode raised a false alarm on the unchanged tree before anything was committed: clean does not follow dependencies -
+F5 - so a faulty leaf is rightly not reached; clean keeps the whole-directory request.)
 
 | id | property | what the change does | caught by (quick tier) |
 |----|----------|----------------------|------------------------|
